@@ -615,9 +615,42 @@ fn c11_after_cut(
     if early_publication && !is_twin {
         r.stat("c11.publication_before_retry");
         {
+            // Either everything is re-issued (updates only), or an object
+            // that the interrupted write may already have put into its
+            // working directory is withdrawn: one configured ROA goes.
+            let withdraw = Rng::new(
+                r.world.sim_secs as u64 ^ 0x77d_c11
+            ).fork(what).chance(1, 2);
             let inst = r.world.inst(0);
             inst.enter();
-            let _ = block_on(inst.mgr().republish_all(true));
+            let mut withdrawn = false;
+            if withdraw {
+                let names: Vec<String> = r.model.cas.values()
+                    .filter(|c| c.inst == 0).map(|c| c.name.clone()).collect();
+                for name in names {
+                    let Ok(ca) = inst.rt().ca_manager().get_ca(
+                        &crate::sim::handle(&name)
+                    ) else { continue };
+                    let Some(first) = ca.configured_roas().first()
+                        .map(|c| c.roa_configuration.payload)
+                    else { continue };
+                    let updates = krill::api::roa::RoaConfigurationUpdates {
+                        added: vec![], removed: vec![first],
+                    };
+                    if block_on(inst.mgr().ca_routes_update(
+                        crate::sim::handle(&name), updates, world::ADMIN
+                    )).is_ok() {
+                        withdrawn = true;
+                        break
+                    }
+                }
+            }
+            if withdrawn {
+                r.stat("c11.withdrawal_before_retry");
+            }
+            else {
+                let _ = block_on(inst.mgr().republish_all(true));
+            }
         }
         let res = r.exec_pump();
         hooks::log(format!("early publication pump {res}"));
